@@ -94,6 +94,65 @@ def _grad_case(nnx, jnp):
   return None
 
 
+def _grad_argnums_cases(nnx, jnp):
+  """nnx.grad / value_and_grad over argnums {0, 1, (0,1), (1,0), (2,0), DiffState mixes}: the i-th result is
+  the gradient w.r.t. the i-th REQUESTED argument, restricted to the selected Variables"""
+  import jax
+
+  class M(nnx.Module):
+    def __init__(self, w, s):
+      self.w = nnx.Param(jnp.asarray(w))
+      self.s = nnx.BatchStat(jnp.asarray(s))
+  ws = ([1.0, 2.0], [0.5, -1.5], [2.0, 0.25])
+  ss = (3.0, -2.0, 0.5)
+
+  def loss(a, b, c):
+    return ((a.w.value * b.w.value).sum() * a.s.value + (c.w.value ** 2).sum() * b.s.value * c.s.value + (b.w.value ** 3).sum()) ** 2
+
+  def ref_loss(vals):
+    (aw, as_), (bw, bs), (cw, cs) = vals
+    return ((aw * bw).sum() * as_ + (cw ** 2).sum() * bs * cs + (bw ** 3).sum()) ** 2
+  vals = tuple((jnp.asarray(w), jnp.asarray(s)) for w, s in zip(ws, ss))
+  full = jax.grad(ref_loss)(vals)      # d/d(everything)
+  P, S = nnx.Param, nnx.BatchStat
+  configs = [0, 1, 2, (0, 1), (1, 0), (2, 0), (2, 1, 0), nnx.DiffState(1, S), (nnx.DiffState(1, S), nnx.DiffState(0, P)),
+             (nnx.DiffState(2, nnx.Any(P, S)), 0), (1, nnx.DiffState(0, S))]
+  for cfg in configs:
+    items = cfg if isinstance(cfg, tuple) else (cfg,)
+    want = []
+    for it in items:
+      idx, flt = (it.argnum, it.filter) if isinstance(it, nnx.DiffState) else (it, P)
+      sel = {}
+      if flt in (P,) or (not isinstance(flt, type) and flt is not S):
+        if flt is P or not isinstance(flt, type):
+          sel[('w',)] = np.asarray(full[idx][0])
+      if flt is S or not isinstance(flt, type):
+        sel[('s',)] = np.asarray(full[idx][1])
+      want.append(sel)
+    for kind in ('grad', 'value_and_grad'):
+      ms = [M(w, s) for w, s in zip(ws, ss)]
+      try:
+        if kind == 'grad':
+          got = nnx.grad(loss, argnums=cfg)(*ms)
+        else:
+          val, got = nnx.value_and_grad(loss, argnums=cfg)(*ms)
+          if abs(float(val) - float(ref_loss(vals))) > 1e-3 * max(1.0, abs(float(ref_loss(vals)))):
+            return dict(argnums=repr(cfg), kind=kind), 'value differs from the loss'
+      except Exception as e:  # noqa
+        return dict(argnums=repr(cfg), kind=kind), f'raised {e!r}'[:200]
+      got = got if isinstance(cfg, tuple) else (got,)
+      if len(got) != len(want):
+        return dict(argnums=repr(cfg), kind=kind), f'{len(got)} gradients for {len(want)} requested arguments'
+      for i, (g, w_) in enumerate(zip(got, want)):
+        flat = {p: np.asarray(v.value) for p, v in nnx.to_flat_state(g)}
+        if set(flat) != set(w_):
+          return dict(argnums=repr(cfg), kind=kind), f'result {i} contains {sorted(flat)}, selected were {sorted(w_)} (unselected state must be absent)'
+        for p in flat:
+          if np.abs(flat[p] - w_[p]).max() > 1e-3 * max(1.0, np.abs(w_[p]).max()):
+            return dict(argnums=repr(cfg), kind=kind), f'result {i} at {p} is {flat[p]}, jax.grad of the same loss w.r.t. argument {items[i] if not isinstance(items[i], nnx.DiffState) else items[i].argnum} gives {w_[p]}'
+  return None, None
+
+
 def _aliasing_cases(nnx, jnp):
   class M(nnx.Module):
     def __init__(self):
@@ -151,7 +210,15 @@ def run(tier, seed):
       if msg:
         fails.append(dict(inputs=dict(check=tag), observed=msg, violated=tag))
         break
-  return dict(name=NAME, cases=cases, distinct=cases, bound='scan: StateAxes axis in {0,1,2,-1} x reverse; vmap: axis in {0,1,2,-1}; grad; 4 aliasing conflicts',
+  if not fails:
+    cases += 22
+    try:
+      inp, msg = _grad_argnums_cases(nnx, jnp)
+    except Exception as e:  # noqa
+      inp, msg = dict(check='grad-argnums'), f'raised {e!r}'[:300]
+    if msg:
+      fails.append(dict(inputs=inp, observed=msg, violated='grad-equals-jax-grad'))
+  return dict(name=NAME, cases=cases, distinct=cases, bound='scan: StateAxes axis in {0,1,2,-1} x reverse (decorator form); vmap: axis in {0,1,2,-1}; grad / value_and_grad x 11 argnums / DiffState configurations over 3 module arguments; 4 aliasing conflicts',
               failures=fails[:2], error=None)
 
 
